@@ -27,7 +27,9 @@ _INIT = {'done': False, 'tmp': None}
 CUR = {}
 REC = {}
 
-PAGES = {'short': b'oops', 'empty': b'', 'long': b'E' * 600}
+PAGES = {'short': b'oops', 'empty': b'', 'long': b'E' * 600, 'str': 'o\xf6ps'.encode('utf-8'),
+         'iter': [b'oo', b'', 'p\xe9s'.encode('utf-8')]}
+TMPL_PAGES = ('tmpl', 'raise', 'int')     # kinds that end in the built-in template
 CTS = {'html': 'text/html', 'plain': 'text/plain', 'json': 'application/json',
        'octet': 'application/octet-stream'}
 AE = {'-': None, 'gzip': 'gzip', 'xgzip': 'x-gzip;q=0.5', 'identity': 'identity', 'gzipq0': 'gzip;q=0',
@@ -90,6 +92,9 @@ def make_body(kind, chunks):
         return _gen(chunks)
     if kind == 'F':
         return io.BytesIO(b''.join(v for k, v in chunks))
+    if kind == 'Y':
+        return _static.serve_fileobj(io.BytesIO(b''.join(v for k, v in chunks)),
+                                     content_type=CTS[CUR['case'].get('ct', 'html')])
     if kind == 'J':
         return {'k': [v.decode('latin-1') for k, v in chunks]}
     raise common.HarnessError('bad body kind %r' % kind)
@@ -152,7 +157,20 @@ class Root(object):
 
 
 def _error_page(**kwargs):
-    return PAGES[CUR['case'].get('page', 'tmpl')]
+    kind = CUR['case'].get('page', 'tmpl')
+    if kind == 'str':
+        return 'o\xf6ps'
+    if kind == 'iter':
+        return iter(['oo', b'', 'p\xe9s'])         # str and bytes chunks: wrapped in UTF8StreamEncoder
+    if kind == 'raise':
+        raise _Boom('error page failed')            # -> built-in template + appended note
+    if kind == 'int':
+        return 5                                    # -> ValueError inside get_error_page -> same fallback
+    return PAGES[kind]
+
+
+def _failing_error_response():
+    raise _Boom('error_response failed')
 
 
 def _record_stream():
@@ -237,6 +255,8 @@ def make_app(case):
         conf['tools.flatten.on'] = True
     if 'stream' in tools:
         conf['response.stream'] = True
+    if 'errfails' in tools:
+        conf['request.error_response'] = _failing_error_response
     if case['body'].startswith('J:'):
         conf['tools.json_out.on'] = True
     if case.get('hook', '-') != '-':
